@@ -62,6 +62,16 @@ def main():
         status, dt, info = run_one(prop, p, tier)
         rows.append((prop, os.path.relpath(p, HERE), status, dt, info))
         print("%-4s %-55s %-14s %6.1fs  %s" % (prop, os.path.relpath(p, HERE), status, dt, info), flush=True)
+    # record (merge) results for the DESIGN tables
+    rec_path = os.path.join(HERE, "seeded" if "--seeded" in sys.argv else "mutants", "RESULTS.json")
+    try:
+        rec = json.load(open(rec_path))
+    except Exception:
+        rec = {}
+    for prop, p, status, dt, info in rows:
+        rec[p] = {"property": prop, "tier": tier, "status": status, "seconds": round(dt, 1), "detected_by": info}
+    with open(rec_path, "w") as f:
+        json.dump(rec, f, indent=1, sort_keys=True)
     missed = [r for r in rows if r[2] != "DETECTED"]
     print("%d/%d detected" % (len(rows) - len(missed), len(rows)))
     return 0
